@@ -143,12 +143,16 @@ def classes():
                   "pers": StatEvents.TIMESTAMP_DATA_EVENT}[self.kind]
             if self.via == "direct":
                 self.st = K("k", "k", sim)
+                self.st2 = K("k2", "k2", sim)
             elif self.via == "default":
                 self.st = K("k", "k", sim, producer=self.p, event_type=et)
+                self.st2 = K("k2", "k2", sim, producer=self.p, event_type=et)
                 self.et = et
             else:
                 self.st = K("k", "k", sim)
                 self.st.listen_to(self.p, CUSTOM)
+                self.st2 = K("k2", "k2", sim)
+                self.st2.listen_to(self.p, CUSTOM)
                 self.et = CUSTOM
             self.sub = Sub(self.st, self.bad)
             for nm in dir(StatEvents):
@@ -169,14 +173,15 @@ def classes():
                 return            # watchdog against a runaway run loop
             try:
                 if self.via == "direct":
-                    if self.kind == "counter":
-                        self.st.register(int(v))
-                    elif self.kind == "tally":
-                        self.st.register(v)
-                    elif self.kind == "wtally":
-                        self.st.register(1.0 + v, v)
-                    else:
-                        self.st.register(t, v)
+                    for st in (self.st, self.st2):
+                        if self.kind == "counter":
+                            st.register(int(v))
+                        elif self.kind == "tally":
+                            st.register(v)
+                        elif self.kind == "wtally":
+                            st.register(1.0 + v, v)
+                        else:
+                            st.register(t, v)
                 else:
                     if self.kind == "counter":
                         self.p.fire(self.et, int(v))
@@ -249,14 +254,22 @@ def run_real(clock, kind, obs, via, warm, mode):
     from pydsol.core.experiment import SingleReplication
     from pydsol.core.utils import DSOLError
     from checks.c06 import clock_types
+    base_off = 0.0
+    if "@" in clock:
+        clock, off = clock.split("@")
+        base_off = float(off)
     simc, T = clock_types()[clock]
+    if clock == "int":
+        T = int          # C06 scales its int clock by 8; here ticks are units
     M, Sub = classes()
+    obs = [(t + base_off, pr, v) for t, pr, v in obs]
 
     def body(s):
         sim = simc("s")
         m = M(sim, T, kind, obs, via,
               stop_at=(0 if mode == "stop-at-first" else None))
-        sim.initialize(m, SingleReplication("r", T(0), T(warm), T(END)))
+        sim.initialize(m, SingleReplication("r", T(base_off), T(warm),
+                                            T(END)))
         s.wait_quiescent()
         notes = []
         if mode == "step-all":
@@ -275,7 +288,9 @@ def run_real(clock, kind, obs, via, warm, mode):
                 break
         st = m.st
         got = snap(kind, st)
+        got2 = snap(kind, m.st2)
         active = st.isactive() if kind == "pers" else None
+        active2 = m.st2.isactive() if kind == "pers" else None
         try:
             same_obj = sim.model.get_output_statistic("k") is st
         except Exception:  # noqa
@@ -283,7 +298,8 @@ def run_real(clock, kind, obs, via, warm, mode):
         state = (sim.run_state.name, sim.replication_state.name)
         sim.cleanup()
         s.wait_quiescent()
-        return dict(got=got, active=active, same_obj=same_obj,
+        return dict(got=got, got2=got2, active=active, active2=active2,
+                    same_obj=same_obj,
                     bad=list(m.bad), err=list(m.err), state=state,
                     nobs=m.nobs, published=m.sub.n)
     with common.quiet_stdio():
@@ -295,7 +311,7 @@ def run_real(clock, kind, obs, via, warm, mode):
 
 def judge(case):
     clock, kind, obs, via, warm, mode = case
-    if clock == "int" and any(t != int(t) for t, _, _ in obs):
+    if clock.startswith("int") and any(t != int(t) for t, _, _ in obs):
         return [], None
     try:
         o = run_real(clock, kind, obs, via, warm, mode)
@@ -317,13 +333,20 @@ def judge(case):
         bad.append(("published-value-differs-from-getter", o["bad"][0]))
     if not o["same_obj"]:
         bad.append(("statistic-not-retrievable-from-model",))
-    kept = kept_obs(obs, warm)
-    exp, exact = expected(kind, kept)
+    off = float(clock.split("@")[1]) if "@" in clock else 0.0
+    kept = [(t + off, v) for t, v in kept_obs(obs, warm)]
+    exp, exact = expected(kind, kept, END + off)
     for (nm, g), (_, e) in zip(o["got"], exp):
         if kind == "pers" and nm in ("n", "min", "max"):
             continue
         if not same(g, e):
             bad.append(("getter:" + nm, g, e, kept))
+    if [repr(x) for x in o["got2"]] != [repr(x) for x in o["got"]]:
+        bad.append(("second-statistic-of-the-same-kind-differs", o["got2"],
+                    o["got"]))
+    if kind == "pers" and o["active2"] is not False:
+        bad.append(("second-persistent-not-closed-at-replication-end",
+                    o["active2"]))
     if kind == "pers":
         if o["active"] is not False:
             bad.append(("persistent-not-closed-at-replication-end",
@@ -396,10 +419,11 @@ def run(ctx):
     tasks = []
     for kind in KINDS:
         for via in VIAS:
-            for warm in (0.0, 2.0):
+            for warm in (0.0, 2.0, END):
                 for mode in ("run", "step-all", "stop-at-first"):
-                    for clock in ("float", "duration"):
-                        if quick and clock == "duration" and mode != "run":
+                    for clock in ("float", "duration", "float@100",
+                                  "duration@-10"):
+                        if quick and clock != "float" and mode != "run":
                             continue
                         for k in (0, 1, 2):
                             nch = 4 if k == 2 else 1
@@ -408,7 +432,7 @@ def run(ctx):
                                               c, nch))
     if not quick:
         for kind in KINDS:
-            for warm in (0.0, 2.0):
+            for warm in (0.0, 2.0, END):
                 for c in range(32):
                     tasks.append(("float", kind, "direct", warm, "run", 3, c,
                                   32))
